@@ -1,6 +1,7 @@
 """C08 -- printed numbers round-trip and are nearest decimal approximations.
 
-That to_digits_exp produces the right digits is numerical and NOT decided.
+That bin_to_radix / numeral produce the right digits of a fixed-point number is
+numerical and NOT decided.
 Decided: the necessary conditions of the round trip that are visible in the
 source,
 
@@ -21,6 +22,11 @@ source,
   W-R4  decimal rounding step of to_str: it asks to_digits_exp for guard digits
         beyond dps, rounds on the first dropped digit, propagates the carry
         through trailing 9s, and in the all-nines case bumps the decimal exponent
+  W-R5  exactness discipline of digit generation: digits that depend on an
+        inexact operation (a rounding kernel at finite precision, to_fixed
+        cutting mantissa bits) are returned only when certified by a
+        floor/ceiling enclosure left under equality, a neighbour probe or an
+        exactness guard (see the comment above DigitFlow)
 """
 import ast
 import math
@@ -210,6 +216,30 @@ def check_wiring(run, ix):
         run.fail(F('W-R2', CTXPY, '_mpf.__repr__', f.node, "repr is not of the form mpf('<digits>')"))
 
 
+def check_mpc_parts(run, ix):
+    """the real and imaginary parts of an mpc are printed by the same to_str call shape: same digit
+    count, same formatting options (sibling agreement)"""
+    rel = 'mpmath/libmp/libmpc.py'
+    f = ix.func(rel, 'mpc_to_str')
+    calls = [c for c in _walk_own(f.node) if isinstance(c, ast.Call) and norm(c.func) == 'to_str']
+    if len(calls) < 2:
+        raise AnalysisError('mpc_to_str: to_str calls not found')
+    shapes = {}
+    for c in calls:
+        shape = (tuple(norm(a) for a in c.args[1:]),
+                 tuple(sorted((k.arg or '**', norm(k.value)) for k in c.keywords)))
+        shapes.setdefault(shape, []).append(c)
+    if len(shapes) == 1:
+        run.ok('W-R2', 'mpc_to_str prints both parts with the same digit count and options')
+    else:
+        major = max(shapes.values(), key=len)
+        for sh, cs in shapes.items():
+            if cs is not major:
+                run.fail(F('W-R2', rel, 'mpc_to_str', cs[0], 'this part is printed with other arguments than the '
+                           'other part (%s): digit count or formatting options are not applied to it'
+                           % norm(major[0])))
+
+
 def check_specials(run, ix):
     m = ix.module(LIBMPF)
     f = ix.func(LIBMPF, 'to_str')
@@ -307,13 +337,285 @@ def run(run, ix, tier):
         'bound; wiring, the special-value tables of writer and reader, and the shape of the rounding/carry step '
         'are checked structurally.  Digit generation itself (to_digits_exp) and from_str\'s rounding are '
         'numerical (C07 covers from_str).' % RANGE)
-    run.assumptions = ['to_digits_exp returns correctly truncated digits (not decided)']
+    run.assumptions = ['bin_to_radix and numeral give the exact floor digits of a fixed-point integer (not decided)']
     run.trusted = ['the Formula evaluator in sa/checks/c08.py (int/float arithmetic as in CPython)']
     run.rule('W-R1', floor=2)
-    run.rule('W-R2', floor=7)
+    run.rule('W-R2', floor=8)
     run.rule('W-R3', floor=8)
     run.rule('W-R4', floor=5)
+    run.rule('W-R5', floor=3)
     check_digit_count(run, ix)
     check_wiring(run, ix)
+    check_mpc_parts(run, ix)
     check_specials(run, ix)
     check_rounding_step(run, ix)
+    check_digit_exactness(run, ix)
+
+
+# ---------------------------------------------------------------------------------------------
+# W-R5  exactness discipline of digit generation
+#
+# to_str rounds on ONE decimal digit of the string to_digits_exp hands it.  That is correct only
+# if those digits are the digits of the exact value rounded toward zero: a value a hair above a
+# decimal boundary whose digits come out as ...4999 is rounded the wrong way.  Two operations in
+# the digit path are inexact: rounding kernels called with a finite precision (the division by a
+# power of ten for huge exponents) and to_fixed, which cuts mantissa bits off when the mantissa is
+# longer than the working width.  The rule: digits that depend on such an operation reach a
+# `return` only when CERTIFIED, by one of
+#   * enclosure:  the value is computed twice with directed roundings that make a lower and an
+#                 upper bound (division: floor with the divisor rounded up, ceiling with the
+#                 divisor rounded down) and the digits are accepted under `lower == upper`;
+#   * neighbour probe:  the digits of the truncated fixed-point number sf are accepted under
+#                 equality with the digits of sf + 1;
+#   * exactness guard:  a condition that implies no fractional bit was cut (evaluated on a grid
+#                 of (exp, fixprec): it must imply  exp + fixprec >= 0  or  fixprec == 0).
+# Abstract values: 'E' exact, 'L'/'U' lower/upper bound, 'N' inexact without a bound,
+# 'T0'/'T1' truncated fixed-point number and its upper neighbour; digit strings carry the kind of
+# the number they were made from.
+ROUNDERS = ('mpf_div', 'mpf_mul', 'mpf_pow_int', 'mpf_add', 'mpf_sub', 'mpf_sqrt')
+DIGIT_FUNCS = ('bin_to_radix', 'numeral')
+
+
+class DigitFlow(object):
+    def __init__(self, run, ix):
+        self.run = run
+        self.ix = ix
+        self.mod = ix.module(LIBMPF)
+        self.summaries = {}
+
+    # -- helper summary: does the function return exact floor digits of its (exact) argument?
+    def helper_certified(self, name):
+        if name in self.summaries:
+            return self.summaries[name]
+        self.summaries[name] = False
+        f = self.mod.funcs.get(name)
+        if f is None:
+            return False
+        ok, why = self.analyse(f, top=False)
+        self.summaries[name] = ok
+        self.helper_why = why
+        return ok
+
+    def kind_of_call(self, c, env):
+        fn = norm(c.func)
+        args = c.args
+        if fn in ROUNDERS:
+            sig = self.mod.funcs.get(fn)
+            params = sig.params if sig is not None else []
+            pi = params.index('prec') if 'prec' in params else None
+            ri = params.index('rnd') if 'rnd' in params else None
+            if pi is None or len(args) <= pi or (isinstance(args[pi], ast.Constant) and args[pi].value == 0):
+                return 'E'                       # no finite precision: exact operation
+            rnd = norm(args[ri]) if ri is not None and len(args) > ri else None
+            kinds = [self.kind(a, env) for a in args[:pi]]
+            if fn == 'mpf_div' and len(kinds) == 2 and kinds[0] == 'E':
+                if rnd == 'round_floor' and kinds[1] in ('E', 'U'):
+                    return 'L'
+                if rnd == 'round_ceiling' and kinds[1] in ('E', 'L'):
+                    return 'U'
+                return 'N'
+            if all(k in ('E', 'I') for k in kinds):
+                return {'round_floor': 'L', 'round_ceiling': 'U'}.get(rnd, 'N')
+            return 'N'
+        if fn == 'to_int':
+            return 'I'              # an integer estimate: any integer scaling exponent is valid
+        if fn in ('from_int', 'mpf_neg', 'bitcount', 'abs', 'int', 'len', 'max', 'min', 'str'):
+            ks = [self.kind(a, env) for a in args]
+            return 'N' if 'N' in ks else 'E'
+        if fn in ('mpf_ln2', 'mpf_ln10'):
+            return 'N'
+        if fn == 'to_fixed':
+            k = self.kind(args[0], env)
+            return ('T0', k)
+        if fn in DIGIT_FUNCS:
+            return self.kind(args[0], env)
+        if fn in self.mod.funcs and fn not in ROUNDERS:
+            # a helper of the digit path: certified helpers return the floor digits of their argument
+            k = self.kind(args[0], env) if args else 'E'
+            if self.helper_certified(fn):
+                return ('PAIR', k, 'I')
+            return ('PAIR', 'N', 'I')
+        return 'E'
+
+    def kind(self, e, env):
+        if isinstance(e, ast.Name):
+            return env.get(e.id, 'E')
+        if isinstance(e, ast.Constant):
+            return 'E'
+        if isinstance(e, ast.Subscript):
+            return self.kind(e.value, env)
+        if isinstance(e, ast.Call):
+            return self.kind_of_call(e, env)
+        if isinstance(e, ast.BinOp):
+            a, b = self.kind(e.left, env), self.kind(e.right, env)
+            if isinstance(a, tuple) and a[0] == 'T0' and isinstance(e.op, ast.Add) and \
+                    isinstance(e.right, ast.Constant) and e.right.value == 1:
+                return ('T1', a[1])
+            for k in (a, b):
+                if k not in ('E', 'I'):
+                    return k if isinstance(k, str) else 'N'
+            return 'E'
+        if isinstance(e, ast.Tuple):
+            return ('TUPLE',) + tuple(self.kind(x, env) for x in e.elts)
+        if isinstance(e, (ast.UnaryOp,)):
+            return self.kind(e.operand, env)
+        return 'E'
+
+    @staticmethod
+    def certifies(test, env, kindfn):
+        """does `test` contain lower == upper  or  digits(sf) == digits(sf+1)?"""
+        for c in ast.walk(test):
+            if isinstance(c, ast.Compare) and len(c.ops) == 1 and isinstance(c.ops[0], ast.Eq):
+                a, b = kindfn(c.left, env), kindfn(c.comparators[0], env)
+                if {a, b} == {'L', 'U'}:
+                    return 'enclosure'
+                if isinstance(a, tuple) and isinstance(b, tuple) and {a[0], b[0]} == {'T0', 'T1'} \
+                        and a[1] == b[1] == 'E':
+                    return 'neighbour probe'
+        return None
+
+    def exactness_guard(self, test):
+        from ..formula import Evaluator
+        names = {n.id for n in ast.walk(test) if isinstance(n, ast.Name)}
+        if not names <= {'exp', 'fixprec', 'bc', 'bitprec'} or 'fixprec' not in names:
+            return False
+        ev = Evaluator()
+        try:
+            for exp in range(-40, 41, 1):
+                for fixprec in range(0, 60):
+                    for bc in (1, 7, 53):
+                        env = {'exp': exp, 'fixprec': fixprec, 'bc': bc, 'bitprec': fixprec + exp + bc}
+                        if ev.ev(test, env) and not (exp + fixprec >= 0 or fixprec == 0):
+                            return False
+        except AnalysisError:
+            return False
+        return True
+
+    def analyse(self, f, top=True):
+        """abstractly execute the body once (loops once); returns (certified, reason)"""
+        env = {}
+        problems = []
+        nret = [0]
+
+        def assign(t, k):
+            if isinstance(t, ast.Name):
+                env[t.id] = k
+            elif isinstance(t, ast.Tuple):
+                if isinstance(k, tuple) and k[0] in ('PAIR', 'TUPLE') and len(k) - 1 == len(t.elts):
+                    for x, kk in zip(t.elts, k[1:]):
+                        assign(x, kk)
+                else:
+                    for x in t.elts:
+                        assign(x, k if isinstance(k, str) else 'E')
+
+        def digits_ok(k):
+            return k in ('E', 'I')
+
+        def do_return(st, guards):
+            nret[0] += 1
+            v = st.value
+            elts = v.elts if isinstance(v, ast.Tuple) else [v]
+            for x in elts:
+                k = self.kind(x, env)
+                if digits_ok(k):
+                    continue
+                cert = None
+                for g in guards:
+                    cert = cert or self.certifies(g, env, self.kind)
+                    if isinstance(k, tuple) and k[0] == 'T0' and k[1] == 'E' and self.exactness_guard(g):
+                        cert = cert or 'exactness guard'
+                if cert and (k in ('L', 'U') or (isinstance(k, tuple) and k[0] in ('T0',) and k[1] == 'E')):
+                    continue
+                problems.append((st, x, k))
+
+        def block(body, guards):
+            for st in body:
+                if isinstance(st, ast.Assign) and len(st.targets) == 1:
+                    assign(st.targets[0], self.kind(st.value, env))
+                elif isinstance(st, ast.AugAssign) and isinstance(st.target, ast.Name):
+                    k = self.kind(st.value, env)
+                    if k not in ('E', 'I'):
+                        env[st.target.id] = k
+                elif isinstance(st, ast.If):
+                    body_has_break = any(isinstance(x, ast.Break) for x in st.body)
+                    if body_has_break:
+                        c = self.certifies(st.test, env, self.kind)
+                        if c:
+                            pending.append((c, st))
+                        else:
+                            pending.append((None, st))
+                        continue
+                    saved = dict(env)
+                    block(st.body, guards + [st.test])
+                    e1 = dict(env)
+                    env.clear()
+                    env.update(saved)
+                    block(st.orelse, guards)
+                    for nm, k in e1.items():      # join: the worse kind wins
+                        if env.get(nm, 'E') in ('E', 'I') and k not in ('E', 'I'):
+                            env[nm] = k
+                elif isinstance(st, ast.While):
+                    mark = len(pending)
+                    block(st.body, guards)
+                    mine = pending[mark:]
+                    del pending[mark:]
+                    if mine and all(c for c, _ in mine):
+                        # the loop is left only under lower == upper: the bounds ARE the value
+                        for nm, k in list(env.items()):
+                            if k in ('L', 'U'):
+                                env[nm] = 'E'
+                        self.run.ok('W-R5', '%s: loop left only under %s' % (f.qualname, mine[0][0]))
+                    elif mine:
+                        for c, node in mine:
+                            if not c:
+                                problems.append((node, node.test, 'uncertified loop exit'))
+                elif isinstance(st, ast.Return):
+                    do_return(st, guards)
+                elif isinstance(st, (ast.Expr, ast.ImportFrom, ast.Import, ast.Pass, ast.Break)):
+                    continue
+                else:
+                    raise AnalysisError('W-R5: unmodelled statement in %s: %s' % (f.qualname, norm(st)))
+
+        pending = []
+        block(f.node.body, [])
+        if nret[0] == 0:
+            raise AnalysisError('W-R5: %s has no return' % f.qualname)
+        if problems:
+            st, x, k = problems[0]
+            return False, (st, x, k)
+        return True, None
+
+
+def check_digit_exactness(run, ix):
+    df = DigitFlow(run, ix)
+    f = ix.func(LIBMPF, 'to_digits_exp')
+    ok, why = df.analyse(f)
+    # report helper failures at the helper
+    for name, good in sorted(df.summaries.items()):
+        hf = ix.func(LIBMPF, name)
+        if good:
+            run.ok('W-R5', '%s: every return of digits is certified (neighbour probe / exactness guard)' % name)
+        else:
+            st, x, k = df.helper_why
+            run.fail(F('W-R5', LIBMPF, hf.qualname, st,
+                       'digits made from a %s value are returned uncertified: the mantissa bits cut off by '
+                       'to_fixed (or an inexact scaling) can move the value across a decimal boundary, and to_str '
+                       'then rounds the wrong way' % describe_kind(k)))
+    if ok:
+        run.ok('W-R5', 'to_digits_exp: the digits it returns are those of the exact value')
+    elif all(df.summaries.values()) or not df.summaries:
+        st, x, k = why
+        run.fail(F('W-R5', LIBMPF, f.qualname, st,
+                   '`%s` depends on %s and reaches the caller without an enclosure (floor/ceiling pair accepted '
+                   'under equality), a neighbour probe or an exactness guard: to_str rounds on a digit that may '
+                   'be wrong' % (norm(x), describe_kind(k))))
+
+
+def describe_kind(k):
+    if k == 'N':
+        return 'a value rounded to a finite precision without a direction'
+    if k in ('L', 'U'):
+        return 'a one-sided bound (%s)' % ('lower' if k == 'L' else 'upper')
+    if isinstance(k, tuple) and k[0] in ('T0', 'T1'):
+        return 'a fixed-point number truncated by to_fixed' + ('' if k[1] == 'E' else ' of an inexact value')
+    return str(k)
